@@ -10,7 +10,7 @@ from sa.exc import CANCELLED
 from sa.flow import FnExit, Interp, TestAtom, call_of
 
 CLAIM = {
-    "text": "Decides, for the four stream receivers (blocking/asynchronous x copying/buffered) and the TCP client wrappers, the structure behind 'every complete packet once, then a sticky end-of-stream': the consumer is drained (consumer.next(None)) before the transport or the end-of-stream latch is touched; the latch is a dataclass field defaulting to False that is only ever stored True, only in receive(), only on the empty-read branch; every transport read happens with the latch known to be False on that path; every value read from the transport reaches consumer.next on every path and nothing else is ever fed; a packet taken from the consumer is returned on every path (None and falsy packets included); once the latch is set the only exit is ECONNABORTED and no packet is returned; the four siblings agree on this fact tuple; the client wrappers translate connection errors but never swallow them or run a raising call between the endpoint's return and their own. Also decided: (flow) in the asyncio protocol every change of the buffered-bytes level is followed on every normal path by the matching flow-control re-evaluation (resume after taking bytes out, pause after adding), so reading is never left paused; (buf) a caller-owned buffer registered with the event loop is withdrawn on every exit of the receive; (arms) no except arm of the converters / consumers / TLS transports is shadowed by an earlier arm that catches every class it names. The clients' receive iterators never leave while a packet returned by recv_packet() is still held; a 0-byte read of the ciphertext stream marks the incoming BIO EOF on every path; the read water marks, computed by constant propagation, lie within the receive buffer. Round 4: eof_received() of the asyncio stream protocol returns True on every path outside the SSL case (the transport stays open while received packets are unread); the helper that takes the receive lock with a deadline releases it on every exit once acquired (acquire/release pairing typestate); in-place buffer compaction happens after the copy-out; a lent buffer is withdrawn in the callback. Round 5: the two water-mark tests point the right way (pause on level >= mark, resume on level <= mark); is_closing() of the asyncio stream adapter answers from its own flag (the sticky end-of-stream error survives a later socket error). Round 6: no send_eof() of an endpoint, client or transport closes the object it belongs to or the source it reads from (half-close is not close). Round 7: send_packet() does not close the object either (a failed send must not discard packets that were already received); sibling receivers are compared on the presence, not the number, of feed and read sites.",
+    "text": "Decides, for the four stream receivers (blocking/asynchronous x copying/buffered) and the TCP client wrappers, the structure behind 'every complete packet once, then a sticky end-of-stream': the consumer is drained (consumer.next(None)) before the transport or the end-of-stream latch is touched; the latch is a dataclass field defaulting to False that is only ever stored True, only in receive(), only on the empty-read branch; every transport read happens with the latch known to be False on that path; every value read from the transport reaches consumer.next on every path and nothing else is ever fed; a packet taken from the consumer is returned on every path (None and falsy packets included); once the latch is set the only exit is ECONNABORTED and no packet is returned; the four siblings agree on this fact tuple; the client wrappers translate connection errors but never swallow them or run a raising call between the endpoint's return and their own. Also decided: (flow) in the asyncio protocol every change of the buffered-bytes level is followed on every normal path by the matching flow-control re-evaluation (resume after taking bytes out, pause after adding), so reading is never left paused; (buf) a caller-owned buffer registered with the event loop is withdrawn on every exit of the receive; (arms) no except arm of the converters / consumers / TLS transports is shadowed by an earlier arm that catches every class it names. The clients' receive iterators never leave while a packet returned by recv_packet() is still held; a 0-byte read of the ciphertext stream marks the incoming BIO EOF on every path; the read water marks, computed by constant propagation, lie within the receive buffer. Round 4: eof_received() of the asyncio stream protocol returns True on every path outside the SSL case (the transport stays open while received packets are unread); the helper that takes the receive lock with a deadline releases it on every exit once acquired (acquire/release pairing typestate); in-place buffer compaction happens after the copy-out; a lent buffer is withdrawn in the callback. Round 5: the two water-mark tests point the right way (pause on level >= mark, resume on level <= mark); is_closing() of the asyncio stream adapter answers from its own flag (the sticky end-of-stream error survives a later socket error). Round 6: no send_eof() of an endpoint, client or transport closes the object it belongs to or the source it reads from (half-close is not close). Round 7: send_packet() does not close the object either (a failed send must not discard packets that were already received); sibling receivers are compared on the presence, not the number, of feed and read sites. Round 8: the end-of-stream error (ECONNABORTED) is raised only on paths on which the latch is not known to be False (end-of-stream is never reported without having been latched, so the next call cannot read the transport again).",
     "note": "Trusted: consumer.next delivers/raises StopIteration as specified (C01/C02 cover its internals structurally); annotations. Not decided: exactly-once for several packets inside one chunk (value level).",
     "technique": "typestate by abstract interpretation (drain-first, latch knowledge refined by branch tests, hold-until-fed), write-once/who-writes queries on the program database, sibling comparison of normalised fact tuples",
 }
@@ -294,6 +294,11 @@ def check_receivers(eng, run):
             if eof == "T" and e != "ECONNABORTED":
                 eof_bad.append((node, ""))
                 run.finding("C03.eof", fn, node, f"after end-of-stream was latched the call fails with {e or 'another error'} instead of ECONNABORTED")
+            if eof == "F" and e == "ECONNABORTED":
+                # end-of-stream is reported while the latch is known to be False on this path: the next call reads the transport again
+                eof_bad.append((node, ""))
+                run.finding("C03.eof", fn, node, "end-of-stream (ECONNABORTED) is reported on a path on which the end-of-stream latch is known not to be set: "
+                            "the next receive() reads the transport again (blocks, times out or returns data) instead of reporting end-of-stream again")
         has_abort = any("ECONNABORTED" in e.split("|") for _, e in errnos)
         if not has_abort:
             run.finding("C03.eof", fn, fn.node, "no ECONNABORTED exit for end-of-stream")
@@ -686,6 +691,8 @@ MUTANTS = [
                                     "packet = endpoint.recv_packet(timeout=timeout)\n_utils.check_real_socket_state(endpoint.extra(INETSocketAttribute.socket))\nreturn packet"),
             "C03.cli", why="a packet taken from the stream is discarded when SO_ERROR is pending"),
     Variant("feed-twice", _ABR + ".receive", lambda fn: insert_before(fn, stmt_is("try:"), "consumer.next(nbytes + 0)", 1), "C03.feed"),
+    Variant("eof-reported-unlatched", _ABR + ".receive", lambda fn: replace_stmt(fn, stmt_is("self._eof_reached = True"), "break"), "C03.eof",
+            why="end-of-stream is reported once without being latched: the next call reads the transport again"),
 ]
 
 BENIGN = [
